@@ -235,7 +235,7 @@ class Chain(SubCheck):
         return self.real
 
     def run(self, shape, tier, seed):
-        self.replay_every = 4 if tier == "quick" else 1
+        self.replay_every = 1
         return SubCheck.run(self, shape, tier, seed)
 
     def harness(self, e, shape, impl):
